@@ -39,16 +39,12 @@ func writeCE(v *Violation, path string) error {
 			}
 			ce[fmt.Sprintf("%s[]#%d", nd.Name, k)] = vals
 		case "now":
-			// internal seconds (since year 1) and nanoseconds of the k-th clock reading
-			var sec, ns uint64
+			// monotonic nanoseconds of the k-th clock reading
+			var mono uint64
 			if m, ok := v.Model[nd.Many[0].name]; ok {
-				sec = m.Uint64()
+				mono = m.Uint64()
 			}
-			if m, ok := v.Model[nd.Many[1].name]; ok {
-				ns = m.Uint64()
-			}
-			ce["now.sec"] = append(ce["now.sec"], sec-unixToInternal)
-			ce["now.nsec"] = append(ce["now.nsec"], ns)
+			ce["now.mono"] = append(ce["now.mono"], mono)
 		default:
 			var val uint64
 			if m, ok := v.Model[nd.Term.name]; ok {
